@@ -271,6 +271,43 @@ Definition push_defs (rho : env) (fds : list funcdef) : env :=
   fold_left (fun acc fd => BFun fd :: acc) fds rho.
 
 Definition name_is (s : string) (n : bytes) : bool := list_N_eqb n (codes s).
+(* name constants (converted once) *)
+Definition nm_recurse : bytes := codes "recurse".
+Definition nm_tostring : bytes := codes "tostring".
+Definition nm_start : bytes := codes "start".
+Definition nm_end : bytes := codes "end".
+Definition nm_0 : bytes := codes "$ENV".
+Definition nm_1 : bytes := codes "@base64".
+Definition nm_2 : bytes := codes "@base64d".
+Definition nm_3 : bytes := codes "@csv".
+Definition nm_4 : bytes := codes "@html".
+Definition nm_5 : bytes := codes "@json".
+Definition nm_6 : bytes := codes "@sh".
+Definition nm_7 : bytes := codes "@text".
+Definition nm_8 : bytes := codes "@tsv".
+Definition nm_9 : bytes := codes "@uri".
+Definition nm_10 : bytes := codes "@urid".
+Definition nm_11 : bytes := codes "_assign".
+Definition nm_12 : bytes := codes "_last".
+Definition nm_13 : bytes := codes "_modify".
+Definition nm_14 : bytes := codes "_range".
+Definition nm_15 : bytes := codes "_tobase64".
+Definition nm_16 : bytes := codes "_tocsv".
+Definition nm_17 : bytes := codes "_tohtml".
+Definition nm_18 : bytes := codes "_tosh".
+Definition nm_19 : bytes := codes "_totsv".
+Definition nm_20 : bytes := codes "_touri".
+Definition nm_21 : bytes := codes "empty".
+Definition nm_22 : bytes := codes "env".
+Definition nm_23 : bytes := codes "format".
+Definition nm_24 : bytes := codes "getpath".
+Definition nm_25 : bytes := codes "halt".
+Definition nm_26 : bytes := codes "halt_error".
+Definition nm_27 : bytes := codes "input".
+Definition nm_28 : bytes := codes "join".
+Definition nm_29 : bytes := codes "path".
+Definition nm_30 : bytes := codes "tojson".
+Definition nm_31 : bytes := codes "tostring".
 
 (* ------------------------------------------------------------------------------------------ *)
 (* constant index keys (query.go toIndexKey / toIndices, WITHOUT the suffix-dropping defect F2:
@@ -312,7 +349,7 @@ Definition index_key (i : index) : option jv :=
                 let bound (b : option query) : option jv :=
                   match b with None => Some VNull | Some q => query_index_key q end in
                 match bound start, bound end_ with
-                | Some s, Some e => Some (VObj (obj_set (obj_set [] (codes "start") s) (codes "end") e))
+                | Some s, Some e => Some (VObj (obj_set (obj_set [] nm_start s) nm_end e))
                 | _, _ => None
                 end
           end
@@ -388,24 +425,24 @@ Definition op_binop (o : operator) : option (jv -> jv -> nres) :=
   end.
 
 Definition format_func (fmt : bytes) : option bytes :=
-  if name_is "@text" fmt then Some (codes "tostring")
-  else if name_is "@json" fmt then Some (codes "tojson")
-  else if name_is "@html" fmt then Some (codes "_tohtml")
-  else if name_is "@uri" fmt then Some (codes "_touri")
-  else if name_is "@urid" fmt then Some (codes "_tourid")
-  else if name_is "@csv" fmt then Some (codes "_tocsv")
-  else if name_is "@tsv" fmt then Some (codes "_totsv")
-  else if name_is "@sh" fmt then Some (codes "_tosh")
-  else if name_is "@base64" fmt then Some (codes "_tobase64")
-  else if name_is "@base64d" fmt then Some (codes "_tobase64d")
+  if list_N_eqb fmt nm_7 then Some (codes "tostring")
+  else if list_N_eqb fmt nm_5 then Some (codes "tojson")
+  else if list_N_eqb fmt nm_4 then Some (codes "_tohtml")
+  else if list_N_eqb fmt nm_9 then Some (codes "_touri")
+  else if list_N_eqb fmt nm_10 then Some (codes "_tourid")
+  else if list_N_eqb fmt nm_3 then Some (codes "_tocsv")
+  else if list_N_eqb fmt nm_8 then Some (codes "_totsv")
+  else if list_N_eqb fmt nm_6 then Some (codes "_tosh")
+  else if list_N_eqb fmt nm_1 then Some (codes "_tobase64")
+  else if list_N_eqb fmt nm_2 then Some (codes "_tobase64d")
   else None.
 
 (* natives whose result shows the Go representation of a number (json.Number prints its literal
    text): declined when the input holds such numbers *)
 Definition is_formatter (name : bytes) : bool :=
-  name_is "tojson" name || name_is "tostring" name || name_is "join" name || name_is "format" name
-  || name_is "_tohtml" name || name_is "_touri" name || name_is "_tocsv" name || name_is "_totsv" name
-  || name_is "_tosh" name || name_is "_tobase64" name.
+  list_N_eqb name nm_30 || list_N_eqb name nm_31 || list_N_eqb name nm_28 || list_N_eqb name nm_23
+  || list_N_eqb name nm_17 || list_N_eqb name nm_20 || list_N_eqb name nm_16 || list_N_eqb name nm_19
+  || list_N_eqb name nm_18 || list_N_eqb name nm_15.
 
 Fixpoint has_number (fuel : nat) (v : jv) : bool :=
   match fuel with
@@ -419,8 +456,10 @@ Fixpoint has_number (fuel : nat) (v : jv) : bool :=
   end.
 
 Definition guard_repsens (name : bytes) (v : jv) (m : M unit) : M unit :=
-  fun s => if repsens s && is_formatter name && has_number (S (jv_depth v)) v
-           then (inr (XSkip (codes "number-representation")), s) else m s.
+  if is_formatter name
+  then fun s => if repsens s && has_number (S (jv_depth v)) v
+                then (inr (XSkip (codes "number-representation")), s) else m s
+  else m.
 
 (* iteration budget of the native _range (independent of the evaluation fuel) *)
 Definition range_budget : nat := N.to_nat 20000.
@@ -465,10 +504,23 @@ Fixpoint range_loop (budget : nat) (cur end_ step : jv) (ps : pst) (k : K) : M u
       else k (plain cur) ps ;; lift (binop_add cur step) (fun nxt => range_loop b nxt end_ step ps k)
   end.
 
-Fixpoint eval_q (n : nat) (rho : env) (q : query) (v : tv) (ps : pst) (k : K) {struct n} : M unit :=
-  match n with
-  | O => raise XFuel
-  | S n' =>
+(* Open recursion: the step functions take the evaluators of the next lower fuel level as a record;
+   [evals_n] ties the knot by recursion on the fuel.  (This shape makes "more fuel, same answer" a
+   statement about the monotonicity of the step functions: SemProofs.v.) *)
+Record evals := mk_evals {
+  ev_q : env -> query -> tv -> pst -> K -> M unit;
+  ev_path : env -> query -> tv -> (list jv -> M unit) -> M unit;
+  ev_modify : env -> query -> (tv -> (jv -> M unit) -> M unit) -> tv -> K -> M unit;
+  ev_bindpat : env -> pattern -> tv -> pst -> (env -> pst -> M unit) -> M unit;
+  ev_string : env -> jstring -> option bytes -> tv -> pst -> K -> M unit;
+  ev_t : env -> term -> tv -> pst -> K -> M unit;
+  ev_index : env -> term -> index -> tv -> pst -> K -> M unit;
+  ev_call : env -> bytes -> list query -> tv -> pst -> K -> M unit
+}.
+
+Definition syn_depth : nat := N.to_nat 4000.
+
+Definition step_eval_q (E : evals) (rho : env) (q : query) (v : tv) (ps : pst) (k : K) : M unit :=
   match q with
   | Query imports fds tm lq oq rq pats =>
     match imports with
@@ -476,60 +528,60 @@ Fixpoint eval_q (n : nat) (rho : env) (q : query) (v : tv) (ps : pst) (k : K) {s
     | [] =>
     let rho := push_defs rho fds in
     match tm with
-    | Some t => eval_t n' rho t v ps k
+    | Some t => ev_t E rho t v ps k
     | None =>
       match lq, oq, rq with
       | Some l, Some o, Some r =>
         match o with
         | OpPipe =>
             match pats with
-            | [] => eval_q n' rho l v ps (fun x ps' => eval_q n' rho r x ps' k)
+            | [] => ev_q E rho l v ps (fun x ps' => ev_q E rho r x ps' k)
             | _ =>
                 (* l as p1 ?// p2 ... | r : the source is evaluated outside path tracking *)
-                let allvars := flat_map (pattern_vars (S n')) pats in
+                let allvars := flat_map (pattern_vars syn_depth) pats in
                 let rho0 := fold_left (fun acc nm => BVar nm (plain VNull) :: acc) allvars rho in
-                eval_q n' rho l v None (fun x _ =>
+                ev_q E rho l v None (fun x _ =>
                   (fix alts (ps_ : list pattern) : M unit :=
                      match ps_ with
                      | [] => ret tt
-                     | [p] => bind_pat n' (match pats with [_] => rho | _ => rho0 end) p x None
-                                (fun rho' _ => eval_q n' rho' r v ps k)
+                     | [p] => ev_bindpat E (match pats with [_] => rho | _ => rho0 end) p x None
+                                (fun rho' _ => ev_q E rho' r v ps k)
                      | p :: rest =>
-                         or_else (bind_pat n' rho0 p x None (fun rho' _ => eval_q n' rho' r v ps k))
+                         or_else (ev_bindpat E rho0 p x None (fun rho' _ => ev_q E rho' r v ps k))
                                  (alts rest)
                      end) pats)
             end
-        | OpComma => eval_q n' rho l v ps k ;; eval_q n' rho r v ps k
+        | OpComma => ev_q E rho l v ps k ;; ev_q E rho r v ps k
         | OpAlt =>
             c <- new_cell (plain VFalse) ;;
-            eval_q n' rho l v ps (fun x ps' =>
+            ev_q E rho l v ps (fun x ps' =>
               if truthy (fst x) then set_cell c (plain VTrue) ;; k x ps' else ret tt) ;;
             f <- get_cell c ;; free_cell c ;;
-            if truthy (fst f) then ret tt else eval_q n' rho r v ps k
+            if truthy (fst f) then ret tt else ev_q E rho r v ps k
         | OpAnd =>
-            eval_q n' rho l v None (fun x _ =>
+            ev_q E rho l v None (fun x _ =>
               if truthy (fst x)
-              then eval_q n' rho r v None (fun y _ => k (plain (VBool (truthy (fst y)))) ps)
+              then ev_q E rho r v None (fun y _ => k (plain (VBool (truthy (fst y)))) ps)
               else k (plain VFalse) ps)
         | OpOr =>
-            eval_q n' rho l v None (fun x _ =>
+            ev_q E rho l v None (fun x _ =>
               if truthy (fst x) then k (plain VTrue) ps
-              else eval_q n' rho r v None (fun y _ => k (plain (VBool (truthy (fst y)))) ps))
+              else ev_q E rho r v None (fun y _ => k (plain (VBool (truthy (fst y)))) ps))
         | OpAssign =>
             match ps with
             | Some _ => skipM "update-in-path"
             | None =>
-              match query_indices (S n') l with
+              match query_indices syn_depth l with
               | Some path =>
                   (* compileQueryUpdate: constant path -> setpath(path; r) *)
                   if has_slice_elem path then skipM "slice-update" else
-                  eval_q n' rho r v None (fun x _ =>
+                  ev_q E rho r v None (fun x _ =>
                     lift (fn_setpath (fst v) (VArr path) (fst x)) (fun w => k (plain w) None))
               | None =>
                   (* _assign(p; $x) = reduce path(p) as $q (.; setpath($q; $x)) *)
-                  eval_q n' rho r v None (fun x _ =>
+                  ev_q E rho r v None (fun x _ =>
                     c <- new_cell (plain (fst v)) ;;
-                    eval_path n' rho l v (fun path =>
+                    ev_path E rho l v (fun path =>
                       if has_slice_elem path then skipM "slice-update" else
                       cur <- get_cell c ;;
                       lift (fn_setpath (fst cur) (VArr path) (fst x)) (fun w => set_cell c (plain w))) ;;
@@ -539,22 +591,22 @@ Fixpoint eval_q (n : nat) (rho : env) (q : query) (v : tv) (ps : pst) (k : K) {s
         | OpModify =>
             match ps with
             | Some _ => skipM "update-in-path"
-            | None => modify n' rho l (fun y kk => eval_q n' rho r y None (fun z _ => kk (fst z))) v k
+            | None => ev_modify E rho l (fun y kk => ev_q E rho r y None (fun z _ => kk (fst z))) v k
             end
         | OpUpdateAdd | OpUpdateSub | OpUpdateMul | OpUpdateDiv | OpUpdateMod | OpUpdateAlt =>
             match ps, op_binop o with
             | None, Some f =>
                 (* `l op= r`: r is evaluated first, on the input; one update per output of r *)
-                eval_q n' rho r v None (fun x _ =>
-                  modify n' rho l (fun y kk => lift (f (fst y) (fst x)) kk) v k)
+                ev_q E rho r v None (fun x _ =>
+                  ev_modify E rho l (fun y kk => lift (f (fst y) (fst x)) kk) v k)
             | _, _ => skipM "update-in-path"
             end
         | _ =>
             match op_binop o with
             | Some f =>
                 (* binary operators evaluate the RIGHT operand first (it is the outer loop) *)
-                eval_q n' rho r v ps (fun rv ps1 =>
-                  eval_q n' rho l v ps1 (fun lv_ ps2 =>
+                ev_q E rho r v ps (fun rv ps1 =>
+                  ev_q E rho l v ps1 (fun lv_ ps2 =>
                     lift (f (fst lv_) (fst rv)) (fun w => k (plain w) ps2)))
             | None => skipM "operator"
             end
@@ -563,32 +615,26 @@ Fixpoint eval_q (n : nat) (rho : env) (q : query) (v : tv) (ps : pst) (k : K) {s
       end
     end
     end
-  end
-  end
+  end.
+
 
 (* all paths of p on v, in order (path(p)); kp receives each path *)
-with eval_path (n : nat) (rho : env) (p : query) (v : tv) (kp : list jv -> M unit) {struct n} : M unit :=
-  match n with
-  | O => raise XFuel
-  | S n' =>
+Definition step_eval_path (E : evals) (rho : env) (p : query) (v : tv) (kp : list jv -> M unit) : M unit :=
       id <- fresh ;;
-      eval_q n' rho p (fst v, Some id) (Some (mkp [] (fst v) id)) (fun x ps' =>
+      ev_q E rho p (fst v, Some id) (Some (mkp [] (fst v) id)) (fun x ps' =>
         match ps' with
         | Some pp => check_intact x pp EInvalidPath ;; kp (rev (rpath pp))
         | None => skipM "path-state"
-        end)
-  end
+        end).
+
 
 (* _modify(p; f) as compiler.go compileModify: for each path of p (on the ORIGINAL input), replace
    the value at that path in the current value by the FIRST output of f, or remember the path for
    deletion when f is empty; finally delete the remembered paths *)
-with modify (n : nat) (rho : env) (p : query) (f : tv -> (jv -> M unit) -> M unit) (v : tv) (k : K) {struct n} : M unit :=
-  match n with
-  | O => raise XFuel
-  | S n' =>
+Definition step_modify (E : evals) (rho : env) (p : query) (f : tv -> (jv -> M unit) -> M unit) (v : tv) (k : K) : M unit :=
       c <- new_cell (plain (fst v)) ;;
       d <- new_cell (plain (VArr [])) ;;
-      eval_path n' rho p v (fun path =>
+      ev_path E rho p v (fun path =>
         if has_slice_elem path then skipM "slice-update" else
         cur <- get_cell c ;;
         lift (fn_getpath (fst cur) (VArr path)) (fun x =>
@@ -607,14 +653,11 @@ with modify (n : nat) (rho : env) (p : query) (f : tv -> (jv -> M unit) -> M uni
                | _ => skipM "cell"
                end)) ;;
       res <- get_cell c ;; dl <- get_cell d ;; free_cell c ;; free_cell d ;;
-      lift (fn_delpaths (fst res) (fst dl)) (fun w => k (plain w) None)
-  end
+      lift (fn_delpaths (fst res) (fst dl)) (fun w => k (plain w) None).
+
 
 (* destructuring (compiler.go compilePattern); kb receives the extended environment *)
-with bind_pat (n : nat) (rho : env) (p : pattern) (x : tv) (ps : pst) (kb : env -> pst -> M unit) {struct n} : M unit :=
-  match n with
-  | O => raise XFuel
-  | S n' =>
+Definition step_bind_pat (E : evals) (rho : env) (p : pattern) (x : tv) (ps : pst) (kb : env -> pst -> M unit) : M unit :=
   match p with
   | Pattern name arr obj =>
     match name, arr, obj with
@@ -626,7 +669,7 @@ with bind_pat (n : nat) (rho : env) (p : pattern) (x : tv) (ps : pst) (kb : env 
            | pi :: r =>
                lift (fn_indexarray (fst x) i) (fun w =>
                  nav ps x (VInt i) w (fun wv ps' =>
-                   bind_pat n' rho pi wv ps' (fun rho' ps'' => go r (i + 1) rho' ps'')))
+                   ev_bindpat E rho pi wv ps' (fun rho' ps'' => go r (i + 1) rho' ps'')))
            end) arr 0 rho ps
     | [], [], _ :: _ =>
         (fix go (l : list patternobject) (rho : env) (ps : pst) : M unit :=
@@ -637,7 +680,7 @@ with bind_pat (n : nat) (rho : env) (p : pattern) (x : tv) (ps : pst) (kb : env 
                let with_value (varname : option bytes) (wv : tv) (ps' : pst) : M unit :=
                  let rho1 := match varname with Some nm => BVar nm wv :: rho | None => rho end in
                  match val with
-                 | Some pv => bind_pat n' rho1 pv wv ps' (fun rho' ps'' => go r rho' ps'')
+                 | Some pv => ev_bindpat E rho1 pv wv ps' (fun rho' ps'' => go r rho' ps'')
                  | None => go r rho1 ps'
                  end in
                let const_key (kname : bytes) (varname : option bytes) : M unit :=
@@ -656,30 +699,27 @@ with bind_pat (n : nat) (rho : env) (p : pattern) (x : tv) (ps : pst) (kb : env 
                        | _ :: _ => const_key s None
                        | [] => dyn_key (plain (VStr [])) ps
                        end
-                   | Some js, _ => eval_string n' rho js None x ps dyn_key
-                   | None, Some q => eval_q n' rho q x ps dyn_key
+                   | Some js, _ => ev_string E rho js None x ps dyn_key
+                   | None, Some q => ev_q E rho q x ps dyn_key
                    | None, None => skipM "malformed-pattern"
                    end
                end
            end) obj rho ps
     | [], [], [] => skipM "invalid-pattern"
     end
-  end
-  end
+  end.
+
 
 (* string interpolation: ((p0 + p1) + p2) ...; non-literal parts piped through the format *)
-with eval_string (n : nat) (rho : env) (s : jstring) (fmt : option bytes) (v : tv) (ps : pst) (k : K) {struct n} : M unit :=
-  match n with
-  | O => raise XFuel
-  | S n' =>
+Definition step_eval_string (E : evals) (rho : env) (s : jstring) (fmt : option bytes) (v : tv) (ps : pst) (k : K) : M unit :=
   match s with
   | JString str None => k (plain (VStr str)) ps
   | JString _ (Some parts) =>
-      let f := match fmt with Some f => f | None => codes "tostring" end in
+      let f := match fmt with Some f => f | None => nm_tostring end in
       let eval_part (q : query) (ps : pst) (kk : K) : M unit :=
         match q with
-        | Query _ _ (Some (Term (TString _) _)) _ _ _ _ => eval_q n' rho q v ps kk
-        | _ => eval_q n' rho q v ps (fun x ps' => call n' rho f [] x ps' kk)
+        | Query _ _ (Some (Term (TString _) _)) _ _ _ _ => ev_q E rho q v ps kk
+        | _ => ev_q E rho q v ps (fun x ps' => ev_call E rho f [] x ps' kk)
         end in
       (fix go (rparts : list query) (ps : pst) (kk : K) : M unit :=
          match rparts with
@@ -690,43 +730,40 @@ with eval_string (n : nat) (rho : env) (s : jstring) (fmt : option bytes) (v : t
              eval_part q ps (fun rv ps1 =>
                go r ps1 (fun lv_ ps2 => lift (binop_add (fst lv_) (fst rv)) (fun w => kk (plain w) ps2)))
          end) (rev parts) ps k
-  end
-  end
+  end.
+
 
 (* term . suffixes *)
-with eval_t (n : nat) (rho : env) (t : term) (v : tv) (ps : pst) (k : K) {struct n} : M unit :=
-  match n with
-  | O => raise XFuel
-  | S n' =>
+Definition step_eval_t (E : evals) (rho : env) (t : term) (v : tv) (ps : pst) (k : K) : M unit :=
   match t with
   | Term kind sfx =>
     match rev sfx with
-    | Suffix (Some i) _ _ :: rs => eval_index n' rho (Term kind (rev rs)) i v ps k
-    | Suffix None true _ :: rs => eval_t n' rho (Term kind (rev rs)) v ps (fun x ps' => iterate x ps' k)
+    | Suffix (Some i) _ _ :: rs => ev_index E rho (Term kind (rev rs)) i v ps k
+    | Suffix None true _ :: rs => ev_t E rho (Term kind (rev rs)) v ps (fun x ps' => iterate x ps' k)
     | Suffix None false true :: rs =>
         (* `?`: only the last suffix before it is protected (compileTermSuffix) *)
         let protect (inner : tv -> pst -> K -> M unit) (x : tv) (ps' : pst) : M unit :=
           try_catch (inner x ps' (fun y ps'' => down (k y ps''))) (fun _ => ret tt) in
         match rs with
         | Suffix (Some i) _ _ :: rs' =>
-            eval_t n' rho (Term kind (rev rs')) v ps
-              (protect (fun x ps' kk => eval_t n' rho (Term (TIndex i) []) x ps' kk))
+            ev_t E rho (Term kind (rev rs')) v ps
+              (protect (fun x ps' kk => ev_t E rho (Term (TIndex i) []) x ps' kk))
         | Suffix None true _ :: rs' =>
-            eval_t n' rho (Term kind (rev rs')) v ps
+            ev_t E rho (Term kind (rev rs')) v ps
               (protect (fun x ps' kk => iterate x ps' kk))
-        | _ => protect (fun x ps' kk => eval_t n' rho (Term kind (rev rs)) x ps' kk) v ps
+        | _ => protect (fun x ps' kk => ev_t E rho (Term kind (rev rs)) x ps' kk) v ps
         end
     | Suffix None false false :: _ => skipM "invalid-suffix"
     | [] =>
       match kind with
       | TIdentity => k v ps
-      | TRecurse => call n' rho (codes "recurse") [] v ps k
+      | TRecurse => ev_call E rho nm_recurse [] v ps k
       | TNull => k (plain VNull) ps
       | TTrue => k (plain VTrue) ps
       | TFalse => k (plain VFalse) ps
       | TNumber _ num => k (plain (VNum num)) ps
-      | TIndex i => eval_index n' rho (Term TIdentity []) i v ps k
-      | TFunc (Func name args) => call n' rho name args v ps k
+      | TIndex i => ev_index E rho (Term TIdentity []) i v ps k
+      | TFunc (Func name args) => ev_call E rho name args v ps k
       | TObject kvs =>
           match kvs with
           | [] => k (plain (VObj [])) ps
@@ -744,15 +781,15 @@ with eval_t (n : nat) (rho : env) (t : term) (v : tv) (ps : pst) (k : K) {struct
                | ObjectKeyVal key kstr kq val :: r =>
                    let with_key (kx : jv) (ps1 : pst) : M unit :=
                      match val with
-                     | Some qv => eval_q n' rho qv v ps1 (fun x ps2 => go r ((kx, fst x) :: acc) ps2)
+                     | Some qv => ev_q E rho qv v ps1 (fun x ps2 => go r ((kx, fst x) :: acc) ps2)
                      | None => skipM "malformed-object"
                      end in
                    match key with
                    | _ :: _ =>
                        if is_var_name key then
                          match val with
-                         | None => call n' rho key [] v ps (fun x ps1 => go r ((VStr (strip_dollar key), fst x) :: acc) ps1)
-                         | Some _ => call n' rho key [] v ps (fun x ps1 => with_key (fst x) ps1)
+                         | None => ev_call E rho key [] v ps (fun x ps1 => go r ((VStr (strip_dollar key), fst x) :: acc) ps1)
+                         | Some _ => ev_call E rho key [] v ps (fun x ps1 => with_key (fst x) ps1)
                          end
                        else
                          match val with
@@ -769,13 +806,13 @@ with eval_t (n : nat) (rho : env) (t : term) (v : tv) (ps : pst) (k : K) {struct
                            | Some _ => with_key (VStr s) ps
                            end
                        | Some js, _ =>
-                           eval_string n' rho js None v ps (fun kx ps1 =>
+                           ev_string E rho js None v ps (fun kx ps1 =>
                              match val with
                              | None => lift (fn_index2 (fst v) (fst kx)) (fun w =>
                                          nav ps1 v (fst kx) w (fun x ps2 => go r ((fst kx, fst x) :: acc) ps2))
                              | Some _ => with_key (fst kx) ps1
                              end)
-                       | None, Some q => eval_q n' rho q v ps (fun kx ps1 => with_key (fst kx) ps1)
+                       | None, Some q => ev_q E rho q v ps (fun kx ps1 => with_key (fst kx) ps1)
                        | None, None => skipM "malformed-object"
                        end
                    end
@@ -784,7 +821,7 @@ with eval_t (n : nat) (rho : env) (t : term) (v : tv) (ps : pst) (k : K) {struct
       | TArray None => k (plain (VArr [])) ps
       | TArray (Some q) =>
           c <- new_cell (plain (VArr [])) ;;
-          eval_q n' rho q v ps (fun x _ =>
+          ev_q E rho q v ps (fun x _ =>
             a <- get_cell c ;;
             match fst a with
             | VArr l => set_cell c (plain (VArr (fst x :: l)))
@@ -792,14 +829,14 @@ with eval_t (n : nat) (rho : env) (t : term) (v : tv) (ps : pst) (k : K) {struct
             end) ;;
           a <- get_cell c ;; free_cell c ;;
           match fst a with
-          | VArr l => k (plain (VArr (rev l))) ps
+          | VArr l => k (plain (VArr (rev' l))) ps
           | _ => skipM "cell"
           end
       | TUnary op t' =>
           match term_index_key t with
           | Some c => k (plain c) ps
           | None =>
-              eval_t n' rho t' v ps (fun x ps' =>
+              ev_t E rho t' v ps (fun x ps' =>
                 match op with
                 | OpAdd => lift (match fst x with VNum _ => NOk (fst x) | _ => err EUnaryType end) (fun w => k (plain w) ps')
                 | OpSub => lift (match fst x with VNum m => NOk (VNum (num_neg m)) | _ => err EUnaryType end) (fun w => k (plain w) ps')
@@ -810,87 +847,84 @@ with eval_t (n : nat) (rho : env) (t : term) (v : tv) (ps : pst) (k : K) {struct
           match str with
           | None =>
               match format_func fmt with
-              | Some f => call n' rho f [] v ps k
-              | None => call n' rho (codes "format") [q_term (TString (JString (tl fmt) None))] v ps k
+              | Some f => ev_call E rho f [] v ps k
+              | None => ev_call E rho (codes "format") [q_term (TString (JString (tl fmt) None))] v ps k
               end
           | Some s =>
               match format_func fmt with
-              | Some f => eval_string n' rho s (Some f) v ps k
+              | Some f => ev_string E rho s (Some f) v ps k
               | None => skipM "format-string"
               end
           end
-      | TString s => eval_string n' rho s None v ps k
+      | TString s => ev_string E rho s None v ps k
       | TIf c th elifs el =>
           (fix go (c th : query) (elifs : list (query * query)) : M unit :=
-             eval_q n' rho c v None (fun x _ =>
-               if truthy (fst x) then eval_q n' rho th v ps k
+             ev_q E rho c v None (fun x _ =>
+               if truthy (fst x) then ev_q E rho th v ps k
                else match elifs with
                     | (c2, t2) :: r => go c2 t2 r
                     | [] => match el with
-                            | Some e => eval_q n' rho e v ps k
+                            | Some e => ev_q E rho e v ps k
                             | None => k v ps
                             end
                     end)) c th elifs
       | TTry body handler =>
-          try_catch (eval_q n' rho body v ps (fun y ps' => down (k y ps')))
+          try_catch (ev_q E rho body v ps (fun y ps' => down (k y ps')))
             (fun val =>
                match handler with
                | None => ret tt
                | Some h => match val with
-                           | Some e => eval_q n' rho h (plain e) ps k
+                           | Some e => ev_q E rho h (plain e) ps k
                            | None => skipM "error-message"
                            end
                end)
       | TReduce src pat start upd =>
-          eval_q n' rho start v ps (fun s0 ps0 =>
+          ev_q E rho start v ps (fun s0 ps0 =>
             c <- new_cell s0 ;;
-            eval_q n' rho src v ps0 (fun item ps1 =>
-              bind_pat n' rho pat item ps1 (fun rho' ps2 =>
+            ev_q E rho src v ps0 (fun item ps1 =>
+              ev_bindpat E rho pat item ps1 (fun rho' ps2 =>
                 cur <- get_cell c ;;
-                eval_q n' rho' upd cur ps2 (fun u _ => set_cell c u))) ;;
+                ev_q E rho' upd cur ps2 (fun u _ => set_cell c u))) ;;
             res <- get_cell c ;; free_cell c ;; k res ps0)
       | TForeach src pat start upd ext =>
-          eval_q n' rho start v ps (fun s0 ps0 =>
+          ev_q E rho start v ps (fun s0 ps0 =>
             c <- new_cell s0 ;;
-            eval_q n' rho src v ps0 (fun item ps1 =>
-              bind_pat n' rho pat item ps1 (fun rho' ps2 =>
+            ev_q E rho src v ps0 (fun item ps1 =>
+              ev_bindpat E rho pat item ps1 (fun rho' ps2 =>
                 cur <- get_cell c ;;
-                eval_q n' rho' upd cur ps2 (fun u ps3 =>
+                ev_q E rho' upd cur ps2 (fun u ps3 =>
                   set_cell c u ;;
                   match ext with
                   | None => k u ps3
-                  | Some e => eval_q n' rho' e u ps3 k
+                  | Some e => ev_q E rho' e u ps3 k
                   end))) ;;
             free_cell c)
       | TLabel ident body =>
-          l <- fresh ;; catch_break l (eval_q n' (BLabel ident l :: rho) body v ps k)
+          l <- fresh ;; catch_break l (ev_q E (BLabel ident l :: rho) body v ps k)
       | TBreak name =>
           match lookup_label rho name with
           | Some l => raise (XBreak l)
           | None => skipM "undefined-label"
           end
-      | TQuery q => eval_q n' rho q v ps k
+      | TQuery q => ev_q E rho q v ps k
       end
     end
-  end
-  end
+  end.
+
 
 (* e.index / e[i] / e[a:b] (compiler.go compileIndex) *)
-with eval_index (n : nat) (rho : env) (e : term) (i : index) (v : tv) (ps : pst) (k : K) {struct n} : M unit :=
-  match n with
-  | O => raise XFuel
-  | S n' =>
+Definition step_eval_index (E : evals) (rho : env) (e : term) (i : index) (v : tv) (ps : pst) (k : K) : M unit :=
       match index_key i with
       | Some key =>
-          eval_t n' rho e v ps (fun x ps' =>
+          ev_t E rho e v ps (fun x ps' =>
             lift (fn_index2 (fst x) key) (fun w => nav ps' x key w k))
       | None =>
           match i with
           | Index _ str start end_ isSlice =>
               let dyn_index (iq : query) : M unit :=
                 (* _index(e; iq): the index expression first (outer loop), outside path tracking *)
-                eval_q n' rho iq v None (fun ix _ =>
-                  eval_t n' rho e v ps (fun x ps' =>
+                ev_q E rho iq v None (fun ix _ =>
+                  ev_t E rho e v ps (fun x ps' =>
                     lift (fn_index2 (fst x) (fst ix)) (fun w => nav ps' x (fst ix) w k))) in
               match str with
               | Some js => dyn_index (q_term (TString js))
@@ -902,23 +936,20 @@ with eval_index (n : nat) (rho : env) (e : term) (i : index) (v : tv) (ps : pst)
                     let bound (b : option query) (kk : jv -> M unit) : M unit :=
                       match b with
                       | None => kk VNull
-                      | Some bq => eval_q n' rho bq v None (fun y _ => kk (fst y))
+                      | Some bq => ev_q E rho bq v None (fun y _ => kk (fst y))
                       end in
                     bound start (fun sv =>
                       bound end_ (fun ev =>
-                        eval_t n' rho e v ps (fun x ps' =>
+                        ev_t E rho e v ps (fun x ps' =>
                           lift (fn_slice (fst x) ev sv) (fun w =>
-                            nav ps' x (VObj (obj_set (obj_set [] (codes "start") sv) (codes "end") ev)) w k))))
+                            nav ps' x (VObj (obj_set (obj_set [] nm_start sv) nm_end ev)) w k))))
               end
           end
-      end
-  end
+      end.
+
 
 (* function call: variables, user definitions, filter arguments, builtin.jq, natives *)
-with call (n : nat) (rho : env) (name : bytes) (args : list query) (v : tv) (ps : pst) (k : K) {struct n} : M unit :=
-  match n with
-  | O => raise XFuel
-  | S n' =>
+Definition step_call (E : evals) (rho : env) (name : bytes) (args : list query) (v : tv) (ps : pst) (k : K) : M unit :=
   let arity := List.length args in
   let apply (fd : funcdef) (defenv : env) : M unit :=
     match fd with
@@ -930,10 +961,10 @@ with call (n : nat) (rho : env) (name : bytes) (args : list query) (v : tv) (ps 
                                   (combine params args) defenv in
         (fix go (l : list (bytes * query)) (benv : env) : M unit :=
            match l with
-           | [] => eval_q n' benv body v ps k
+           | [] => ev_q E benv body v ps k
            | (pname, a) :: r =>
                if is_var_name pname
-               then eval_q n' rho a v None (fun x _ => go r (BVar pname (plain (fst x)) :: benv))
+               then ev_q E rho a v None (fun x _ => go r (BVar pname (plain (fst x)) :: benv))
                else go r benv
            end) (combine params args) closures
     end in
@@ -942,29 +973,29 @@ with call (n : nat) (rho : env) (name : bytes) (args : list query) (v : tv) (ps 
     (fix go (rqs : list query) (acc : list jv) (ps : pst) : M unit :=
        match rqs with
        | [] => kk acc ps
-       | q :: r => eval_q n' rho q v ps (fun x ps' => go r (fst x :: acc) ps')
+       | q :: r => ev_q E rho q v ps (fun x ps' => go r (fst x :: acc) ps')
        end) (rev qs) [] ps in
-  let native : M unit :=
+  let native (_ : unit) : M unit :=
     match args with
     | [] =>
-        if name_is "empty" name then ret tt
-        else if name_is "input" name then
+        if list_N_eqb name nm_21 then ret tt
+        else if list_N_eqb name nm_27 then
           i <- next_input ;;
           match i with
           | Some x => k (plain x) ps
           | None => raise (XErr O EPlain (Some (vstr "break")))
           end
-        else if name_is "halt" name then raise (XHalt VNull 0)
-        else if name_is "halt_error" name then raise (XHalt (fst v) 5)
-        else if name_is "$ENV" name || name_is "env" name then k (plain (VObj [])) ps
+        else if list_N_eqb name nm_25 then raise (XHalt VNull 0)
+        else if list_N_eqb name nm_26 then raise (XHalt (fst v) 5)
+        else if list_N_eqb name nm_0 || list_N_eqb name nm_22 then k (plain (VObj [])) ps
         else match call_native name (fst v) [] with
              | Some r => lift r (fun w => k (plain w) ps)
              | None => skipM "undefined-function"
              end
     | [a] =>
-        if name_is "path" name then eval_path n' rho a v (fun path => k (plain (VArr path)) ps)
-        else if name_is "getpath" name then
-          eval_q n' rho a v None (fun p _ =>
+        if list_N_eqb name nm_29 then ev_path E rho a v (fun path => k (plain (VArr path)) ps)
+        else if list_N_eqb name nm_24 then
+          ev_q E rho a v None (fun p _ =>
             lift (fn_getpath (fst v) (fst p)) (fun w =>
               match ps, fst p with
               | Some pp, VArr elems =>
@@ -975,10 +1006,10 @@ with call (n : nat) (rho : env) (name : bytes) (args : list query) (v : tv) (ps 
                   end
               | _, _ => k (plain w) ps
               end))
-        else if name_is "_last" name then
+        else if list_N_eqb name nm_12 then
           (* compileLast: the last output of g, nothing when g is empty *)
           c <- new_cell (plain VNull) ;; got <- new_cell (plain VFalse) ;;
-          eval_q n' rho a v ps (fun x _ => set_cell c x ;; set_cell got (plain VTrue)) ;;
+          ev_q E rho a v ps (fun x _ => set_cell c x ;; set_cell got (plain VTrue)) ;;
           res <- get_cell c ;; g <- get_cell got ;; free_cell c ;; free_cell got ;;
           if truthy (fst g) then k (plain (fst res)) ps else ret tt
         else eval_args args ps (fun vals ps' =>
@@ -987,19 +1018,19 @@ with call (n : nat) (rho : env) (name : bytes) (args : list query) (v : tv) (ps 
                | None => skipM "undefined-function"
                end)
     | [a; b] =>
-        if name_is "_modify" name then
+        if list_N_eqb name nm_13 then
           match ps with
           | Some _ => skipM "update-in-path"
-          | None => modify n' rho a (fun y kk => eval_q n' rho b y None (fun z _ => kk (fst z))) v k
+          | None => ev_modify E rho a (fun y kk => ev_q E rho b y None (fun z _ => kk (fst z))) v k
           end
-        else if name_is "_assign" name then skipM "assign-call"
+        else if list_N_eqb name nm_11 then skipM "assign-call"
         else eval_args args ps (fun vals ps' =>
                match call_native name (fst v) vals with
                | Some r => lift r (fun w => k (plain w) ps')
                | None => skipM "undefined-function"
                end)
     | _ =>
-        if name_is "_range" name then
+        if list_N_eqb name nm_14 then
           eval_args args ps (fun vals ps' =>
             match vals with
             | [VNum s; VNum e; VNum st] => range_loop range_budget (VNum s) (VNum e) (VNum st) ps' k
@@ -1012,23 +1043,42 @@ with call (n : nat) (rho : env) (name : bytes) (args : list query) (v : tv) (ps 
                | None => skipM "undefined-function"
                end)
     end in
-  let native := guard_repsens name (fst v) native in
   if is_var_name name && Nat.eqb arity 0 then
     match lookup_var rho name with
     | Some x => k x ps
-    | None => if name_is "$ENV" name then k (plain (VObj [])) ps else skipM "undefined-variable"
+    | None => if list_N_eqb name nm_0 then k (plain (VObj [])) ps else skipM "undefined-variable"
     end
   else
     match lookup_fun rho name arity with
     | Some (CFun fd defenv) => apply fd defenv
-    | Some (CClos body cenv) => eval_q n' cenv body v ps k
+    | Some (CClos body cenv) => ev_q E cenv body v ps k
     | None =>
         match lookup_builtin builtins name arity with
         | Some fd => apply fd []
-        | None => native
+        | None => guard_repsens name (fst v) (native tt)
         end
-    end
+    end.
+
+
+Definition bottom : evals :=
+  mk_evals (fun _ _ _ _ _ => raise XFuel) (fun _ _ _ _ => raise XFuel) (fun _ _ _ _ _ => raise XFuel)
+           (fun _ _ _ _ _ => raise XFuel) (fun _ _ _ _ _ _ => raise XFuel) (fun _ _ _ _ _ => raise XFuel)
+           (fun _ _ _ _ _ _ => raise XFuel) (fun _ _ _ _ _ _ => raise XFuel).
+
+Definition step (E : evals) : evals :=
+  mk_evals (step_eval_q E) (step_eval_path E) (step_modify E) (step_bind_pat E) (step_eval_string E)
+           (step_eval_t E) (step_eval_index E) (step_call E).
+
+Fixpoint evals_n (n : nat) : evals :=
+  match n with
+  | O => bottom
+  | S n' => step (evals_n n')
   end.
+
+Definition eval_q (n : nat) := ev_q (evals_n n).
+Definition eval_t (n : nat) := ev_t (evals_n n).
+Definition eval_path (n : nat) := ev_path (evals_n n).
+Definition call (n : nat) := ev_call (evals_n n).
 
 End Eval.
 
@@ -1047,9 +1097,9 @@ Definition init_state (capn : nat) (ins : list jv) (rs : bool) : sst := mkst [] 
 Definition observe (builtins : list funcdef) (fuel capn : nat) (rs : bool) (ins : list jv) (q : query) (v : jv)
   : list jv * ending :=
   match eval_q builtins fuel [] q (plain v) None emit (init_state capn ins rs) with
-  | (inl _, s) => (rev (outs s), EndNormal)
+  | (inl _, s) => (rev' (outs s), EndNormal)
   | (inr x, s) =>
-      (rev (outs s),
+      (rev' (outs s),
        match x with
        | XStop => EndCap
        | XErr _ c val => EndError c val
